@@ -344,3 +344,24 @@ def run(cx):
         ob.require(len(sn) == 1 and mentions_field(so.of_operand(sn[0].args[1]), "server_name") and not mentions_field(so.of_operand(sn[0].args[1]), "alternate_server_name"),
                    "start/primary", "Builder::start does not pass its server_name as the primary name", sb.path)
         ob.require(len(an) == 1 and mentions_field(so.of_operand(an[0].args[1]), "alternate_server_name"), "start/alternate", "Builder::start does not pass its alternate name", sb.path)
+
+    with cx.ob("C14.5", "R-WRITERS", "one layer out: the TLS configurations are what the rustls builder chain produces - nothing writes a field of a rustls ServerConfig / ClientConfig afterwards (session storage, tickets, resumption, early data and key log stay per-config defaults, so a session can never be resumed past the verifiers of another listener) and no TLS state lives in a static") as ob:
+        n = 0
+        for p_, b_ in prog.bodies.items():
+            if b_.crate != "anemo":
+                continue
+            for i_, bl in enumerate(b_.blocks):
+                if bl.get("cleanup"):
+                    continue
+                for st in bl["s"]:
+                    if st["k"] == "assign" and not isinstance(st["lhs"], int) and st["lhs"]["p"]:
+                        n += 1
+                        ty = b_.local_ty(st["lhs"]["l"])
+                        ob.require(not ty.startswith(("rustls::server::server_conn::ServerConfig", "rustls::client::client_conn::ClientConfig", "&mut rustls::server::server_conn::ServerConfig", "&mut rustls::client::client_conn::ClientConfig")),
+                                   f"tls-config-field-written/{owner_path(prog, b_)}", f"{b_.path} writes into a rustls config ({ty[:60]}) after building it", b_.path, b_.loc(i_))
+        ob.floor(n, 20, "projection writes inspected in crate anemo")
+        MUT = ("OnceLock", "OnceCell", "LazyLock", "Lazy<", "Mutex", "RwLock", "Atomic", "RefCell", "UnsafeCell", "DashMap")
+        statics = [p_ for p_, b_ in prog.bodies.items() if b_.crate == "anemo" and b_.kind.startswith("Static") and p_.startswith(("anemo::config", "anemo::crypto", "anemo::endpoint"))
+                   and "__CALLSITE" not in p_ and any(k in b_.local_ty(0) for k in MUT)]          # (constant tables are fine; anything that can hold state is not)
+        ob.require(not statics, "tls-state-in-static", f"process-wide state in the TLS / endpoint configuration code: {statics[:3]}", "anemo::config")
+
